@@ -359,6 +359,10 @@ def job_fit(family, shape, gemini, batch_size, degenerate):
 
 
 def replay(rep, verbose=False):
+    if rep.get("kind") == "fit-scaled":
+        return _fit_scaled_run(rep, verbose)
+    if rep.get("kind") == "affinity-duplicates":
+        return bool(job_affinity_duplicates()["violations"])
     kind = rep["kind"]
     if kind == "fit":
         from . import common_models as cm
@@ -492,6 +496,76 @@ def replay(rep, verbose=False):
     raise ValueError(kind)
 
 
+SCALED_ESTIMATORS = [("linear", "LinearMMD"), ("linear", "LinearWasserstein"), ("linear", "LinearModel"), ("linear", "RIM"), ("linear", "KernelRIM"),
+                     ("mlp", "MLPMMD"), ("mlp", "MLPWasserstein"), ("mlp", "MLPModel"), ("sparse", "SparseLinearMMD"), ("sparse", "SparseLinearMI"),
+                     ("sparse", "SparseMLPMMD"), ("nonparametric", "CategoricalMMD"), ("nonparametric", "CategoricalWasserstein"), ("tree", "Douglas"), ("tree", "Kauri")]
+
+
+def job_affinity_duplicates():
+    """CONCRETE witness: the affinities the objectives compute themselves (named kernels / metrics, defaults included) are finite on data
+    with exactly duplicated rows and columns -- no NaN from the square root of a negative round-off -- and null between duplicates for distances"""
+    res = _new()
+    gm = loader.real("gemini")
+    rs = np.random.RandomState(4)
+    bad_names = []
+    for trial in range(30):
+        base = rs.normal(size=(6, 1 + trial % 4)) * (1.0 + 10.0 * (trial % 3))
+        X = np.vstack([base, base[:3], base[:1]])
+        for nm, g in [("Wasserstein/euclidean", gm.WassersteinGEMINI()), ("Wasserstein/cosine", gm.WassersteinGEMINI(metric="cosine")), ("Wasserstein/manhattan", gm.WassersteinGEMINI(metric="manhattan")),
+                      ("MMD/linear", gm.MMDGEMINI()), ("MMD/rbf", gm.MMDGEMINI(kernel="rbf"))]:
+            with np.errstate(all="ignore"):
+                A = np.asarray(g.compute_affinity(X), dtype=float)
+            ok = np.isfinite(A).all() and (not nm.startswith("Wasserstein") or (abs(A[0, 6]) <= 1e-6 * (1 + np.abs(A).max()) and abs(A[0, 9]) <= 1e-6 * (1 + np.abs(A).max())))
+            if not ok and nm not in bad_names:
+                bad_names.append(nm)
+    for nm in ["Wasserstein/euclidean", "Wasserstein/cosine", "Wasserstein/manhattan", "MMD/linear", "MMD/rbf"]:
+        res["paths"] += 1
+        res["obligations"].append({"name": f"affinity-duplicates/{nm}: finite on duplicated samples", "verdict": "sat" if nm in bad_names else "unsat", "how": "concrete float64 run"})
+    if bad_names:
+        res["violations"].append({"signature": f"{PROP}:affinity-duplicates:{bad_names[0]}", "what": f"compute_affinity ({bad_names}) returns NaN / a non-null distance between exact duplicates", "replay": {"kind": "affinity-duplicates"}})
+    return res
+
+
+def job_fit_scaled(pkg, name):
+    """CONCRETE float64 witness (saturation / under- and overflow are invisible in exact arithmetic): the public estimator with its default
+    settings on two well separated blobs whose features are scaled by 1, 100 and 1000 -- fit completes, every learned parameter, probability
+    and the score are finite, and the two blobs are not silently merged into one cluster because of a NaN"""
+    res = _new()
+    for scale in (1.0, 100.0, 1000.0):
+        res["paths"] += 1
+        rep_ = {"kind": "fit-scaled", "pkg": pkg, "name": name, "scale": scale}
+        bad = replay(rep_)
+        res["obligations"].append({"name": f"fit-scaled/{name}/x{scale:g}: fit, predict_proba and score finite", "verdict": "sat" if bad else "unsat", "how": "concrete float64 run"})
+        if bad and not res["violations"]:
+            res["violations"].append({"signature": f"{PROP}:fit-scaled:{name}", "what": f"{name} on features scaled by {scale:g}: fit raises or leaves NaN / infinite parameters, probabilities or score", "replay": rep_})
+    return res
+
+
+def _fit_scaled_run(rep, verbose):
+    import warnings
+    mod = loader.real(rep["pkg"])
+    cls = getattr(mod, rep["name"])
+    rs = np.random.RandomState(0)
+    X = np.vstack([rs.normal(size=(20, 3)) + 3, rs.normal(size=(20, 3)) - 3]) * rep["scale"]
+    kw = dict(max_clusters=2) if rep["name"] == "Kauri" else dict(n_clusters=2, random_state=0)
+    try:
+        with warnings.catch_warnings():
+            warnings.simplefilter("ignore")
+            with np.errstate(all="ignore"):
+                m = cls(**kw).fit(X)
+                P = m.predict_proba(X) if hasattr(m, "predict_proba") else None
+                sc = m.score(X)
+                ws = m._get_weights() if hasattr(m, "_get_weights") else []
+    except Exception as e:
+        if verbose:
+            print(rep["name"], "x", rep["scale"], "raised", type(e).__name__, str(e)[:100].replace("\n", " "))
+        return True
+    fin = (P is None or np.isfinite(P).all()) and np.isfinite(sc) and all(np.isfinite(np.asarray(w, dtype=float)).all() for w in ws)
+    if verbose:
+        print(rep["name"], "x", rep["scale"], "finite:", bool(fin), "score", sc, "cluster sizes", np.bincount(np.asarray(m.labels_, dtype=int)).tolist())
+    return not fin
+
+
 def jobs(tier):
     q = tier == "quick"
     out = []
@@ -513,6 +587,9 @@ def jobs(tier):
     if not q:
         fits += [("MLPModel", (2, 1, 1, 2), "mmd_ova", 1, "batch1"), ("LinearModel", (3, 1, 3), "mmd_ova", None, "K=n"), ("LinearModel", (2, 1, 2), "tv_ovo", None, "dup-samples"),
                  ("LinearModel", (2, 1, 2), "hellinger_ova", 1, "batch1"), ("RIM", (2, 2, 2), "mi", None, "const-column")]
+    out.append({"name": "affinity-duplicates", "target": "checks.c17:job_affinity_duplicates", "kwargs": {}, "timeout": 200})
+    for pkg, nm in SCALED_ESTIMATORS:
+        out.append({"name": f"fit-scaled/{nm}", "target": "checks.c17:job_fit_scaled", "kwargs": dict(pkg=pkg, name=nm), "timeout": 280})
     for fam, sh, gem, bs, deg in fits:
         out.append({"name": f"fit/{fam}/{gem}/bs{bs}/{deg}", "target": "checks.c17:job_fit", "kwargs": dict(family=fam, shape=sh, gemini=gem, batch_size=bs, degenerate=deg), "timeout": 240 if q else 1800})
     return out
